@@ -7,15 +7,15 @@
    Proofs: Proofs/GraphBridge.v; theorems: Props/C05Bridge.v.
 
    What is translated (everything else maps to None, i.e. is OUTSIDE the bridge):
-     GScalar s              -> TLeaf (sid s)
+     GScalar s              -> TLeaf (sid N s)
      GNone                  -> TNone
-     GAny                   -> TLeaf any_id            (the pass-through leaf)
-     GLit n                 -> TLeaf (lit_id n)        (Literal[..] is a leaf of the core model)
+     GAny                   -> TLeaf (any_id N)        (the pass-through leaf)
+     GLit n                 -> TLeaf (lit_id N n)      (Literal[..] is a leaf of the core model)
      GGen list/typing.List/typing.Sequence [x]   -> TSeq KList x
      GGen set [x] / frozenset [x] / deque [x]    -> TSeq KSet / KFrozenset / KDeque x
      GGen tuple [x; ...]    -> TSeq KTuple x           (variadic tuple)
      GGen tuple [x1..xn]    -> TTuple [x1..xn]         (n >= 1, no Ellipsis anywhere)
-     GGen dict/typing.Dict [k; v]                -> TMap KDict k v
+     GGen dict/typing.Dict [k; v]                -> TMap (mkind N g) k v
      GUnion _ ms            -> TUnion ms               (all three spellings; members as typing stores them)
      GClass c               -> TName c                 (classes keep their number)
      GNewType m n t         -> TNewType (wid m n) t
@@ -26,7 +26,8 @@
      GRef a mo              -> rref a mo               when it is a well-formed reference annotation
    Outside: GEllipsis on its own, generics of any other arity (bare tuple[()], dict with one argument ...),
    string aliases whose body does not name a class, references the resolver does not know.
-   Core's TClassVar, TMap KOrderedDict and TName of an alias entry (NType) have no gty counterpart.
+   Core's TClassVar and TName of an alias entry (NType) have no gty counterpart; which mapping class a mapping
+   origin constructs (dict / OrderedDict) is not visible at the graph level and comes from the naming (mkind).
 
    The names of the string level (module + qualified name of NewTypes/aliases, field names, the text of a
    ForwardRef) meet the numbers of the core level through a [naming]: an explicit argument, never an axiom.
@@ -44,17 +45,13 @@ Record naming := {
   fid : Graph.str -> nat;                              (* field names *)
   flav : nat -> flavour;                               (* class flavour (not visible at the graph level) *)
   fdef : nat -> Graph.str -> option pv;                (* field defaults (not visible at the graph level) *)
-  creq : nat -> list nat                               (* required keys of a TypedDict (not visible either) *)
+  creq : nat -> list nat;                              (* required keys of a TypedDict (not visible either) *)
+  sid : scalar -> nat;                                 (* leaf numbering: the core model only needs leaf ids *)
+  any_id : nat;                                        (*   to be identities; typing.Any is the pass-through leaf *)
+  lit_id : nat -> nat;
+  mkind : gen -> dictkind                              (* which mapping class a mapping origin constructs *)
 }.
 
-(* leaf numbering of the bridge (the core model only needs leaf ids to be identities) *)
-Definition sid (s : scalar) : nat :=
-  match s with
-  | SInt => 0 | SStr => 1 | SFloat => 2 | SBool => 3 | SBytes => 4 | SDecimal => 5 | SDatetime => 6
-  | SDate => 7 | SUuid => 8 | SFraction => 9 | SPurePath => 10 | SEnum => 11
-  end.
-Definition any_id : nat := 12.
-Definition lit_id (n : nat) : nat := 13 + n.
 
 (* a reference annotation of the core model that refs.forwardref can produce: the name of a class, of a
    leaf class, or of a NewType / alias object *)
@@ -92,16 +89,16 @@ Variable N : naming.
 
 Fixpoint tr_ty (t : gty) : option ty :=
   match t with
-  | GScalar s => Some (TLeaf (sid s))
+  | GScalar s => Some (TLeaf (sid N s))
   | GNone => Some TNone
   | GEllipsis => None
-  | GAny => Some (TLeaf any_id)
-  | GLit n => Some (TLeaf (lit_id n))
+  | GAny => Some (TLeaf (any_id N))
+  | GLit n => Some (TLeaf (lit_id N n))
   | GGen g a =>
       match gen_kind g with
       | KSeq k => match a with [x] => option_map (TSeq k) (tr_ty x) | _ => None end
       | KMap => match a with
-                | [k; v] => match tr_ty k, tr_ty v with Some tk, Some tv => Some (TMap KDict tk tv) | _, _ => None end
+                | [k; v] => match tr_ty k, tr_ty v with Some tk, Some tv => Some (TMap (mkind N g) tk tv) | _, _ => None end
                 | _ => None
                 end
       | KTup => match a with
